@@ -23,6 +23,8 @@ Variants(v) ==
   IN {AllSp(toks, k) : k \in 0..2}
      \cup {OnlyAt(toks, j, 1, 0) : j \in 1..(m - 1)} \cup {OnlyAt(toks, j, 0, 1) : j \in 1..(m - 1)}
      \cup {OnlyAt(toks, j, 5, 0) : j \in {i \in 1..(m - 1) : i % 4 = SEED % 4}}
+     \cup {[i \in 1..m |-> IF i \in {j, j + 1} THEN 1 ELSE 0] : j \in 1..(m - 2)}             \* two neighbouring boundaries opened together
+     \cup {[i \in 1..m |-> IF i \in {j, m - j} THEN 2 ELSE 0] : j \in {i \in 1..(m - 1) : i % 3 = SEED % 3}}   \* two distant ones
      \cup {[i \in 1..m |-> ((i * 7 + r * 13 + SEED) % 5) % 3] : r \in 1..2}
 
 Init == mode = "seed" /\ n \in 1..SEEDS /\ sp = <<>> /\ ws = " "
